@@ -399,3 +399,138 @@ package wasp
 //@   invariant forall k int :: {subscriptions[k]} 0 <= k && k <= rangeindex && subscriptions[k].Peer == w.peerID ==>
 //@        0 <= c - rest(subscriptions, w.peerID, k) && c - rest(subscriptions, w.peerID, k) < idx &&
 //@        recipients[c - rest(subscriptions, w.peerID, k)] == subscriptions[k].SessionID && qosses[c - rest(subscriptions, w.peerID, k)] == subscriptions[k].QoS
+
+// ---- conn.go (C11, C12, C13, C16, C17) -------------------------------------------------------
+//@ func (AuthenticationHandler).Authenticate(a AuthenticationHandler, ctx context.Context, mqtt auth.ApplicationContext, transport auth.TransportContext) (principal auth.Principal, err error)
+//@   modifies nothing
+//@   records #lastAuthOk := err == nil
+//@   records #lastAuthMP := principal.MountPoint
+
+//@ func (PacketProcessor).Process(pp PacketProcessor, ctx context.Context, session *sessions.Session, c io.Writer, pkt packet.Packet) (err error)
+//@   requires session != nil && decoded_ok(pkt)
+//@   modifies *, #handed, #lastHanded, #lastHandedHasCb, #wire, #lastWireTo, #lastWirePkt, #inserts, #lastInsertPkt, #lastInsertPrefix, #ackCalls, #subCreates, #subDeletes, #lastSubPattern, #lastSubSession, #topicGets, #writerSends
+//@   ensures #handed <= old(#handed) + 1
+//@   ensures typeis(pkt, *packet.Publish) ==> #subDeletes == old(#subDeletes) && #subCreates == old(#subCreates)
+//@   records #processCalls := old(#processCalls) + 1
+//@   records #lastProcessed := pkt
+//@   records #lastProcessedNilWriter := c == nil
+
+//@ pred wf_setup(s *setupWorker) := s != nil && s.decoder != nil && s.encoder != nil && s.authHandler != nil && s.state != nil && s.local != nil && s.manager != nil && wf_manager(s.manager)
+
+// a connection attempt
+//@ func (*setupWorker).setup(ctx context.Context, m transport.Metadata) (err error)
+//@   requires wf_setup(s) && m.Channel != nil
+// A-TLS: the certificate chain handed over by crypto/tls has no nil entries
+//@   requires m.EncryptionState != nil ==> (forall i int :: {m.EncryptionState.PeerCertificates[i]} 0 <= i && i < len(m.EncryptionState.PeerCertificates) ==> m.EncryptionState.PeerCertificates[i] != nil)
+// C16: a CONNECT whose credentials are refused gets a refusal CONNACK and leaves no trace: no session record, no registry
+// entry, no connection worker
+//@   ensures [C16] #decodes == old(#decodes) + 1
+//@   ensures [C16] !#lastAuthOk ==> #serves == old(#serves) && #registry == old(#registry)
+//@   ensures [C16] !#lastAuthOk ==> #metaCreates == old(#metaCreates) && #metaDeletes == old(#metaDeletes) && #subCreates == old(#subCreates)
+//@   ensures [C16] #wire[2] > old(#wire)[2] && !#lastAuthOk ==> asptr(#lastWirePkt, *packet.ConnAck).ReturnCode == 4
+//@   ensures [C16] #wire[2] > old(#wire)[2] && asptr(#lastWirePkt, *packet.ConnAck).ReturnCode == 0 ==> #lastAuthOk && #serves == old(#serves) + 1 && #metaCreates == old(#metaCreates) + 1
+// C16/C17: the session is created in the mount point the credential store assigned
+//@   ensures [C16] #serves == old(#serves) + 1 ==> asptr(#lastServed, *sessions.Session).mountPoint == #lastAuthMP && #lastMetaCreatedMP == #lastAuthMP
+// C12: the record previously resolved for this client identifier is deleted before the new one is created
+//@ callsite (*setupWorker).setup -> (distributed.SessionMetadatasState).Create(st distributed.SessionMetadatasState, id string, clientID string, connectedAt int64, lwt *packet.Publish, mountpoint string)
+//@   requires [C12] #lastLookupFound ==> #metaDeletes == old(#metaDeletes) + 1 && #lastMetaDeleted == #lastLookupSession
+//@   requires [C12] !#lastLookupFound ==> #metaDeletes == old(#metaDeletes)
+//@   requires [C12] id == session.id && mountpoint == session.mountPoint
+// C11: the keep-alive deadline replaces the 3 s CONNECT deadline before the connection is served
+//@ callsite (*setupWorker).setup -> (*connectionWorker).serve(ctx2 context.Context, sess *sessions.Session)
+//@   requires [C11] #deadlineSets > old(#deadlineSets) && #lastDeadlineConn == sess.conn
+//@   requires [C12] #metaCreates == old(#metaCreates) + 1 && #lastMetaCreated == sess.id && asptr(#registry[sess.id], *sessions.Session) == sess
+
+//@ func (*connectionWorker).serve(ctx context.Context, session *sessions.Session)
+//@   requires s != nil && s.decoder != nil && s.manager != nil && wf_manager(s.manager) && wf_session(session) && topics_nodup(session)
+//@   records #serves := old(#serves) + 1
+//@   records #lastServed := session
+
+//@ pred wf_manager(s *manager) := s != nil && s.state != nil && s.local != nil && s.packetProcessor != nil
+
+// one packet of an established session
+//@ func (*connectionWorker).processSession(ctx context.Context, session *sessions.Session) (ok bool)
+//@   requires s != nil && s.decoder != nil && s.manager != nil && wf_manager(s.manager) && wf_session(session)
+// C11: the session goes on unless reading failed or Process reported an error; DISCONNECT is remembered as a clean end
+//@   ensures [C11] ok ==> #processCalls == old(#processCalls) + 1
+//@   ensures [C11] #decodes == old(#decodes) + 1 && #processCalls <= old(#processCalls) + 1
+
+// the per-connection loop: every processed packet re-arms the keep-alive deadline; when the loop ends the session is torn down
+//@ loop (*connectionWorker).serve#1
+//@   invariant s != nil && s.decoder != nil && s.manager != nil && wf_manager(s.manager) && wf_session(session)
+//@ callsite (*connectionWorker).serve -> (*manager).shutdownSession(ctx2 context.Context, sess *sessions.Session)
+//@   requires [C11] sess == session
+
+// teardown (C11, C12, C13)
+//@ func (*manager).shutdownSession(ctx context.Context, session *sessions.Session)
+//@   requires wf_manager(s) && wf_session(session)
+// C11: the registry entry goes, every remembered filter is unsubscribed, the connection is closed
+//@   ensures [C11] #registry[session.id] == 0 && (forall k string :: k != session.id ==> #registry[k] == old(#registry)[k])
+//@   ensures [C11] #subDeletes == old(#subDeletes) + len(old(session.topics))
+//@   ensures [C11] #closes[dynval(session.conn)] == old(#closes)[dynval(session.conn)] + 1
+// C11/C12: the session record is deleted exactly when the client identifier still resolves to THIS session
+//@   ensures [C12] #metaDeletes == old(#metaDeletes) + (if #lastLookupFound && #lastLookupSession == session.id then 1 else 0)
+//@   ensures [C12] #metaDeletes > old(#metaDeletes) ==> #lastMetaDeleted == session.id
+// C13: the will is published (through Process, without a writer) exactly when the session did not end with DISCONNECT
+//@   ensures [C13] old(session.Disconnected) ==> #processCalls == old(#processCalls)
+//@   ensures [C13] #processCalls <= old(#processCalls) + 1
+//@   ensures [C13] #processCalls == old(#processCalls) + 1 ==> !old(session.Disconnected) && #lastProcessedNilWriter && typeis(#lastProcessed, *packet.Publish)
+//@ loop (*manager).shutdownSession#1
+//@   invariant -1 <= rangeindex && rangeindex < len(topics) && wf_manager(s) && wf_session(session) && topics == old(session.topics)
+//@   invariant #subDeletes == old(#subDeletes) + rangeindex + 1
+//@   invariant #registry[session.id] == 0 && (forall k string :: k != session.id ==> #registry[k] == old(#registry)[k])
+//@   invariant #closes == old(#closes) && #metaDeletes == old(#metaDeletes) && #processCalls == old(#processCalls)
+//@ callsite (*manager).shutdownSession -> (distributed.SubscriptionsState).Delete(st distributed.SubscriptionsState, sessionID string, pattern []byte)
+//@   requires [C12] sessionID == session.id
+
+// will of the session, decoded from what processConnect stored (C13)
+//@ func (*sessions.Session).LWT() (p *packet.Publish)
+//@   requires s != nil
+//@   ensures p != nil ==> p.Header != nil
+//@   modifies nothing
+
+// fields that are set when the object is built and never written again (checked: no store outside the allocating function)
+//@ immutable manager.authHandler, state, local, writer, inflights, packetProcessor
+//@ immutable setupWorker.decoder, manager, encoder, authHandler, state, local, writer
+//@ immutable connectionWorker.decoder, manager
+//@ immutable packetProcessor.state, local, writer, inflights, encoder, distributor, tapsDispatcher, publishes
+//@ immutable writer.peerID, queue, state, local, inflights, midPool, encoder
+//@ immutable simpleMidPool.min, max
+
+//@ func (*sessions.Session).Close() (err error)
+//@   requires s != nil && s.conn != nil
+//@   modifies #closes
+//@   ensures forall k int :: #closes[k] == old(#closes)[k] + (if k == dynval(s.conn) then 1 else 0)
+//@ loop (*setupWorker).setup#1
+//@   invariant -1 <= rangeindex && rangeindex < len(m.EncryptionState.PeerCertificates) && wf_setup(s) && m.Channel != nil && connectPkt != nil && connectPkt.Header != nil
+//@   invariant forall i int :: {m.EncryptionState.PeerCertificates[i]} 0 <= i && i < len(m.EncryptionState.PeerCertificates) ==> m.EncryptionState.PeerCertificates[i] != nil
+//@   invariant #decodes == old(#decodes) + 1 && #serves == old(#serves) && #registry == old(#registry) && #metaCreates == old(#metaCreates) && #metaDeletes == old(#metaDeletes)
+//@   invariant #subCreates == old(#subCreates) && #wire == old(#wire) && #deadlineSets == old(#deadlineSets)
+
+// ---- nodes.go: failure of a hosting node (C11, C13, C17) --------------------------------------
+// number of sessions from position k on that registered a will
+//@ fun wills(l []api.SessionMetadatas, k int) int := if k >= len(l) then 0 else (if l[k].LWT != nil then 1 else 0) + wills(l, k + 1)
+//@   opaque
+//@ axiom wills_nonneg: forall l []api.SessionMetadatas, k int :: wills(l, k) >= 0
+
+//@ func (*nodeMemberManager).NotifyGossipLeave(id uint64)
+//@   requires n != nil && n.state != nil && n.log != nil
+//@   reveals wills
+// C11: the subscriptions of the failed node are removed
+//@   ensures [C11] #subPeerDeletes == old(#subPeerDeletes) + 1 && #lastSubPeerDeleted == id
+// C13: exactly one append per session of the failed node that registered a will
+//@   ensures [C13] #appends == old(#appends) + wills(peer_sessions(n.state.SessionMetadatas(), id), 0)
+//@ loop (*nodeMemberManager).NotifyGossipLeave#1
+//@   invariant -1 <= rangeindex && rangeindex < len(sessions) && n != nil && n.state != nil && n.log != nil
+//@   invariant #appends - old(#appends) + wills(sessions, rangeindex + 1) == wills(sessions, 0)
+//@   invariant #subPeerDeletes == old(#subPeerDeletes) + 1 && #lastSubPeerDeleted == id
+// C13/C17: what is appended is the will, moved into the mount point of the dead session
+//@ callsite (*nodeMemberManager).NotifyGossipLeave -> (messageLog).Append(l messageLog, b *packet.Publish)
+//@   requires [C13] b != nil && b.Header != nil && b.Payload == lwt.Payload
+//@   requires [C17] prefixed(session.MountPoint, lwt.Topic, b.Topic)
+
+// C11: the session records of the failed node are removed (after a grace period)
+//@ func (*nodeMemberManager).NotifyGossipLeave$1()
+//@   requires n != nil && n.state != nil
+//@   ensures [C11] #metaPeerDeletes == old(#metaPeerDeletes) + 1 && #lastMetaPeerDeleted == id
+//@ immutable nodeMemberManager.id, log, state
